@@ -153,6 +153,23 @@ func ruleG7f(c *Ctx) *RuleResult {
 				r.undecided("G7f: in %s the result of %s is not tested by a branch directly: form not known to the rule", FuncName(fn), pred.Name())
 				continue
 			}
+			// the other legitimate way out of the wait: no _HLS_part was given and the segment is complete
+			// (`msn < nextSegmentID`, reachable only on the `part == ""` side)
+			_, absent := partPresenceConds(c, fn)
+			if nextF := c.Field("", "muxerStream", "nextSegmentID"); nextF != nil && len(absent) > 0 {
+				for _, ci := range ifsOn(fn, func(v ssa.Value) bool {
+					bo, ok := v.(*ssa.BinOp)
+					if !ok || bo.Op != token.LSS {
+						return false
+					}
+					f, _ := loadedField(stripConv(bo.Y))
+					return f == nextF
+				}) {
+					if onlyIf(fn, ci.If, absent, true) {
+						conds = append(conds, ci)
+					}
+				}
+			}
 			if onlyIf(fn, g, conds, true) {
 				r.ok(key, c.Pos(g.Pos()), FuncName(fn), what, "reachable only through the true outcome")
 			} else {
